@@ -138,6 +138,23 @@ def run(ctx):
                 d = meta.same_outcome({"ungrouped": out[name]}, {"ungrouped": out2[name]})
                 if d:
                     ctx.violation(f"voxels of other groups influenced group {name}: " + d, {**case, "group": name, "pred2": p2, "ref2": r2})
+        # malformed stream 2: arrays WITHOUT background whose smallest / largest label belongs to no group
+        if rng.random() < 0.25:
+            from panoptica.utils.segmentation_class import SegmentationClassGroups
+            from panoptica.utils.label_group import LabelGroup
+            gl = sorted(rng.sample(range(2, 7), 3))
+            g2 = SegmentationClassGroups({"a": LabelGroup(gl[:2]), "b": LabelGroup(gl[2:])})
+            undefined = rng.choice([1, 7, min(set(range(1, 8)) - set(gl))])
+            full = np.array([rng.choice(gl) for _ in range(pred.size)], dtype=pred.dtype).reshape(pred.shape)
+            badarr = full.copy()
+            badarr.reshape(-1)[rng.randrange(badarr.size)] = undefined
+            cfg2 = dict(cfg); cfg2["groups"] = g2
+            which = rng.choice(["pred", "ref"])
+            o_bad = impl.evaluate(impl.make_evaluator(cfg2), badarr if which == "pred" else full.copy(), full.copy() if which == "pred" else badarr)
+            ctx.bump("malformed-no-background")
+            if not isinstance(o_bad, tuple):
+                ctx.violation(f"input without background voxels containing label {undefined} that belongs to no group was evaluated instead of rejected",
+                              {**case, "groups": {"a": ["plain", gl[:2]], "b": ["plain", gl[2:]]}, "bad_array": which, "bad": badarr, "full": full})
         # malformed stream: a label outside all groups must be rejected
         if rng.random() < 0.3:
             bad_p = pred.copy()
